@@ -142,10 +142,11 @@ def build(seed, n):
             ap_src = ("def set_cli_args(argument_parser):\n    \"\"\"\n    Set CLI arguments\n\n    :param argument_parser: argument parser\n"
                       "    :type argument_parser: ```ArgumentParser```\n\n    :returns: argument_parser\n    :rtype: ```ArgumentParser```\n    \"\"\"\n"
                       "    argument_parser.description = 'zq user parser {}'\n".format(i) + "\n".join(opts_src) + "\n    return argument_parser\n")
+            two_groups = "    mode_{0}: Union[Literal['zq_alpha', 'zq_beta'], Literal['zq_gamma', 'zq_delta']] = 'zq_beta'\n".format(i)
             cls_src = "class Settings{}(object):\n    \"\"\"\n    The zq settings\n\n".format(i) + \
                       "".join("    :cvar attr_{0}: the zq_{0} attribute\n".format(tn) for tn in tnames) + "    \"\"\"\n\n" + \
                       "".join("    attr_{0}: {0} = {1}\n".format(tn, {"dict": "{}", "list": "[]", "set": "None", "bytes": "b''", "tuple": "()", "Path": "None", "object": "None"}[tn])
-                              for tn in tnames)
+                              for tn in tnames) + two_groups
 
             def user_argparse(src=ap_src):
                 from doctrans import parse
